@@ -1,4 +1,593 @@
-import PkVerif.Model.Attr
+import PkVerif.Lemmas.Attr
+import PkVerif.Gen.C07
+/-!
+# C07 – permanode attributes and deletions follow the documented claim semantics
+
+Property theorems only.  `Pk.Attr.*` (Model/Attr.lean) models pkg/index corpus.go, util.go, index.go
+and the claim-folding composition of location.go; the spec is `Pk.Attr.Spec` below.
+
+* the value of an attribute at time `T` for a signer is the fold, in claim-date order, of that
+  signer's non-deleted set/add/del claims dated ≤ `T` (`Spec.AttrValues`; equal dates are unordered,
+  so the spec is a relation; with pairwise distinct dates it is the function `Spec.attrValues`);
+* a blob is deleted iff some delete claim targets it whose own ref is not deleted
+  (`Spec.IsDeleted`: the defining equation; the theorem shows the recursion is its unique solution).
+
+`search.Handler.Describe` is covered as a fourth observer of the three index modes
+(`C07_describe_path_spec`): it respects deletions and presents the spec values as a set.
+
+Status: the folds, the incremental cache, the cache-validity rule (as repaired by 2f922c1) and both
+deletion recursions satisfy the spec for all inputs.  `C07_all_paths_agree` is FALSE on the code:
+the corpus attribute queries never consult deletions (finding F-C07-1) – stated as
+`C07_all_paths_agree_partial` (no deleted claim on the permanode) + `C07_all_paths_agree_counterexample`.
+-/
 namespace Pk.Attr
-theorem C07_placeholder : True := trivial
+
+/-! ## the spec -/
+namespace Spec
+
+/-- a claim counts for (attribute, time, signer filter) when it is about that attribute, dated no later
+than `t`, by that signer, and not deleted (a delete-claim row has `step = id`, so it never matters) -/
+def counts (deleted : Nat → Bool) (attr : Bytes) (t : Nat) (f : Option Nat) (c : Claim) : Bool :=
+  decide (c.attr = attr) && decide (c.date ≤ t) && signerOk f c && !deleted c.id
+
+/-- `l` is the claim set `cs` arranged in claim-date order (equal dates in any order) -/
+def IsLin (l cs : List Claim) : Prop := l.Perm cs ∧ Sorted l
+
+/-- the attribute values the documented semantics allow: the fold of SOME date-ordered arrangement -/
+def AttrValues (cs : List Claim) (deleted : Nat → Bool) (attr : Bytes) (t : Nat) (f : Option Nat)
+    (vs : List Bytes) : Prop :=
+  ∃ l, IsLin l cs ∧ vs = foldVals (l.filter (counts deleted attr t f))
+
+/-- the attribute values, as a function (meaningful when dates are pairwise distinct) -/
+def attrValues (cs : List Claim) (deleted : Nat → Bool) (attr : Bytes) (t : Nat) (f : Option Nat) : List Bytes :=
+  foldVals ((sortByDate cs).filter (counts deleted attr t f))
+
+/-- `P` is a deletion predicate for the delete claims `ds`: deleted iff targeted by a delete claim
+that is not itself deleted -/
+def IsDeleted (ds : List Del) (P : Ref → Bool) : Prop :=
+  ∀ x, P x = true ↔ ∃ d ∈ ds, d.target = x ∧ P (.cl d.deleter) = false
+
+end Spec
+
+/-- nothing is deleted -/
+def noDel : Nat → Bool := fun _ => false
+
+theorem counts_noDel (attr : Bytes) (t : Nat) (f : Option Nat) : Spec.counts noDel attr t f = rel attr t f := by
+  funext c; simp [Spec.counts, rel, noDel]
+
+/-! a small history used by the non-vacuity examples: two claims on permanode 0, delivered newest first -/
+def exA : Claim := ⟨1, 7, 0, 0, .set, [116], [111], 2000⟩
+def exB : Claim := ⟨2, 3, 0, 1, .add, [116], [110], 1000⟩
+def exC : Claim := ⟨3, 5, 0, 0, .del, [116], [], 3000⟩
+
+/-! ## the spec is well defined -/
+
+/-- the function is one of the allowed results, whatever the dates -/
+theorem C07_spec_attrValues_allowed (cs : List Claim) (deleted : Nat → Bool) (attr : Bytes) (t : Nat)
+    (f : Option Nat) : Spec.AttrValues cs deleted attr t f (Spec.attrValues cs deleted attr t f) :=
+  ⟨sortByDate cs, ⟨sortByDate_perm cs, sortByDate_sorted cs⟩, rfl⟩
+
+/-- with pairwise distinct dates the spec allows exactly one result -/
+theorem C07_spec_linearisation_unique (cs : List Claim) (hd : DistinctDates cs) (deleted : Nat → Bool)
+    (attr : Bytes) (t : Nat) (f : Option Nat) (vs : List Bytes) :
+    Spec.AttrValues cs deleted attr t f vs ↔ vs = Spec.attrValues cs deleted attr t f := by
+  constructor
+  · rintro ⟨l, ⟨hp, hs⟩, rfl⟩
+    have : l = sortByDate cs :=
+      sorted_perm_unique l (sortByDate cs) (hp.trans (sortByDate_perm cs).symm) hs (sortByDate_sorted cs)
+        (hd.perm hp.symm)
+    rw [this]; rfl
+  · rintro rfl; exact C07_spec_attrValues_allowed cs deleted attr t f
+
+example : DistinctDates [exA, exB, exC] := by simp [DistinctDates, exA, exB, exC]
+
+/-! ## the fold implementations -/
+
+/-- **the three folds compute the spec's fold**: on any date-sorted claim list, `claimsIntfAttrValue`'s
+loop (util.go:76), the loop of `AppendPermanodeAttrValues` (corpus.go:1345) and the boolean loop of
+`PermanodeHasAttrValue` (corpus.go:1530, with its `break`) return the spec values of that claim set
+(deletions aside: none of them looks at deletions), for every attribute, time (zero = now) and signer. -/
+theorem C07_fold_implementations_agree (l : List Claim) (hs : Sorted l) (attr val : Bytes)
+    (at_ : Option Nat) (now : Nat) (f : Option Nat) :
+    claimsIntfAttrValues l attr at_ now (filtOf f) = Spec.attrValues l noDel attr (at_.getD now) f ∧
+    appendValuesLoop l attr (at_.getD now) (filtOf f) = Spec.attrValues l noDel attr (at_.getD now) f ∧
+    hasLoop attr val (at_.getD now) l false = decide (val ∈ Spec.attrValues l noDel attr (at_.getD now) none) := by
+  unfold Spec.attrValues
+  rw [sortByDate_of_sorted l hs, counts_noDel, counts_noDel]
+  refine ⟨claimsIntfAttrValues_eq _ _ _ _ _, appendValuesLoop_eq _ _ _ _, ?_⟩
+  rw [hasLoop_eq attr val _ l hs false]
+  have := foldl_hasStep val (l.filter (rel attr (at_.getD now) none)) []
+  simp only [List.not_mem_nil, decide_false] at this
+  rw [this]; rfl
+
+/-- the two value folds do not even need the list sorted: they fold what counts in the order given -/
+theorem C07_fold_in_given_order (l : List Claim) (attr : Bytes) (at_ : Option Nat) (now : Nat) (f : Option Nat) :
+    claimsIntfAttrValues l attr at_ now (filtOf f) = foldVals (l.filter (Spec.counts noDel attr (at_.getD now) f)) ∧
+    appendValuesLoop l attr (at_.getD now) (filtOf f) = foldVals (l.filter (Spec.counts noDel attr (at_.getD now) f)) := by
+  rw [counts_noDel]
+  exact ⟨claimsIntfAttrValues_eq _ _ _ _ _, appendValuesLoop_eq _ _ _ _⟩
+
+example : Sorted [exB, exA, exC] := by simp [Sorted, exA, exB, exC]
+example : claimsIntfAttrValues [exB, exA, exC] [116] (some 2500) 0 (filtOf none) = [[111]] := by decide
+
+/-! ## the incremental cache -/
+
+/-- **any arrival order**: after the claims `arr` of a permanode arrived one by one at a live corpus
+(mergeClaimRow → fixupLastClaim: append path or re-sort path → appendAttrClaim → cacheAttrClaim),
+`pm.Claims` is `arr` in date order, `pm.attr` maps every attribute to the fold of that order, and
+`pm.signer` has, for exactly the signers that have a claim, the fold of their claims. -/
+theorem C07_incremental_cache_correct (arr : List Claim) :
+    Spec.IsLin (incPM arr).claims arr ∧
+    (∀ attr, get ((incPM arr).attr.getD []) attr = attrFold (incPM arr).claims attr) ∧
+    (∀ s, lookupS (incPM arr).signer s = none → ∀ c ∈ arr, c.signer ≠ s) ∧
+    (∀ s ms, lookupS (incPM arr).signer s = some ms → ∀ attr, get ms attr = attrFoldS (incPM arr).claims attr s) := by
+  obtain ⟨hi, hp⟩ := incPM_inv arr
+  refine ⟨⟨hp, hi.sorted⟩, hi.cache.attr, ?_, hi.cache.signerSome⟩
+  intro s hs c hc
+  exact hi.cache.signerNone s hs c (hp.mem_iff.mpr hc)
+
+/-- with pairwise distinct dates: the cache after ANY arrival order is the fold of the date-sorted list -/
+theorem C07_incremental_cache_eq_sorted_fold (arr : List Claim) (hd : DistinctDates arr) :
+    (incPM arr).claims = sortByDate arr ∧
+    (∀ attr, get ((incPM arr).attr.getD []) attr = attrFold (sortByDate arr) attr) ∧
+    (∀ s ms, lookupS (incPM arr).signer s = some ms → ∀ attr, get ms attr = attrFoldS (sortByDate arr) attr s) := by
+  obtain ⟨⟨hp, hs⟩, ha, _, hsig⟩ := C07_incremental_cache_correct arr
+  have hc : (incPM arr).claims = sortByDate arr :=
+    sorted_perm_unique _ _ (hp.trans (sortByDate_perm arr).symm) hs (sortByDate_sorted arr) (hd.perm hp.symm)
+  rw [hc] at ha hsig
+  exact ⟨hc, ha, hsig⟩
+
+/-- two arrival orders of the same claims (distinct dates) give the same claim list and the same
+answers to every attribute query – in particular the live corpus and the corpus loaded at start
+(`loadPM`: rows in key order, then restoreInvariants) cannot be told apart -/
+theorem C07_incremental_eq_loaded (arr rows : List Claim) (hp : rows.Perm arr) (hd : DistinctDates arr)
+    (attr val : Bytes) (at_ : Option Nat) (now : Nat) (f : Option Nat) :
+    (incPM arr).claims = (loadPM rows).claims ∧
+    pmAttrValues (incPM arr) attr at_ now f = pmAttrValues (loadPM rows) attr at_ now f ∧
+    pmAttrValue (incPM arr) attr at_ now f = pmAttrValue (loadPM rows) attr at_ now f ∧
+    pmHasAttrValue (incPM arr) attr val at_ now = pmHasAttrValue (loadPM rows) attr val at_ now := by
+  obtain ⟨hi, hpi⟩ := incPM_inv arr
+  obtain ⟨hl, hpl⟩ := loadPM_inv rows
+  have hc : (incPM arr).claims = (loadPM rows).claims :=
+    sorted_perm_unique _ _ (hpi.trans (hpl.trans hp).symm) hi.sorted hl.sorted (hd.perm hpi.symm)
+  refine ⟨hc, ?_, ?_, ?_⟩
+  · rw [pmAttrValues_eq _ hi, pmAttrValues_eq _ hl, hc]
+  · rw [pmAttrValue_eq _ hi, pmAttrValue_eq _ hl, hc]
+  · rw [pmHasAttrValue_eq _ hi, pmHasAttrValue_eq _ hl, hc]
+
+example : (incPM [exC, exA, exB]).claims = [exB, exA, exC] := by decide
+example : get ((incPM [exA, exB]).attr.getD []) [116] = [[111]] := by decide
+
+/-! ## the cache-validity rule -/
+
+/-- **valuesAtSigner hands out a cached map only when it is right for the time asked** (corpus.go:282,
+as repaired by 2f922c1): then no claim of the permanode is dated after `T` (zero = now), and the map
+holds, for every attribute, the spec values at `T` for that signer filter; `(nil, true)` is answered
+only when nothing counts.  (`Inv pm` is what `C07_incremental_cache_correct` / `restoreInvariants`
+establish.) -/
+theorem C07_cache_valid_at_T (pm : PM) (hi : Inv pm) (at_ : Option Nat) (now : Nat) (f : Option Nat) :
+    (∀ m, valuesAtSigner pm at_ now f = some (some m) →
+      (∀ c ∈ pm.claims, c.date ≤ at_.getD now) ∧
+      ∀ attr, get m attr = Spec.attrValues pm.claims noDel attr (at_.getD now) f) ∧
+    (valuesAtSigner pm at_ now f = some none →
+      ∀ attr, Spec.attrValues pm.claims noDel attr (at_.getD now) f = []) := by
+  constructor
+  · intro m h
+    constructor
+    · intro c hc
+      obtain ⟨_, hlast⟩ := valuesAtSigner_cache h
+      cases hl : pm.claims.getLast? with
+      | none => rw [List.getLast?_eq_none_iff] at hl; rw [hl] at hc; cases hc
+      | some last =>
+        have := sorted_le_last hi.sorted hl c hc
+        have := hlast last hl
+        omega
+    · intro attr
+      unfold Spec.attrValues
+      rw [sortByDate_of_sorted _ hi.sorted, counts_noDel]
+      exact cache_valid pm hi at_ now f m h attr
+  · intro h attr
+    unfold Spec.attrValues
+    rw [sortByDate_of_sorted _ hi.sorted, counts_noDel, nilok_valid pm hi at_ now f h]
+    rfl
+
+/-- before 2f922c1 the rule was wrong at the zero time: with a claim dated after now, the cache was
+handed out although it is not the value at now (finding F-C07-2, fixed) -/
+theorem C07_cache_valid_at_T_old_counterexample :
+    ∃ (pm : PM) (m : AttrMap), Inv pm ∧ valuesAtSignerOld pm none none = some (some m) ∧
+      get m [116] ≠ Spec.attrValues pm.claims noDel [116] 1500 none :=
+  ⟨incPM [exB, exA], _, (incPM_inv _).1, rfl, by decide⟩
+
+example : Inv (incPM [exC, exA, exB]) := (incPM_inv _).1
+example : ∃ m, valuesAtSigner (incPM [exA, exB]) (some 2500) 0 (some 1) = some (some m) := ⟨_, rfl⟩
+example : valuesAtSigner (incPM [exA, exB]) (some 1500) 0 none = none := by decide
+example : valuesAtSigner (incPM [exA, exB]) none 1500 none = none := by decide
+
+/-! ## deletion -/
+
+/-- position of a blob in the arrival order, as far as deletion needs it: ids grow with arrival -/
+def refOrd : Ref → Nat
+  | .pn _ => 0
+  | .cl i => i + 1
+
+/-- every delete claim arrived after its target (refs are hashes: a claim cannot name a later blob) -/
+def World.WF (w : World) : Prop := ∀ d ∈ w.dels, refOrd d.target < d.deleter + 1 ∧ d.deleter ≤ w.maxId
+
+/-- what every delivered history satisfies: ids are bounded by `maxId`, and delete claims follow their targets -/
+structure World.Good (w : World) : Prop where
+  claimIds : ∀ c ∈ w.claims, c.id ≤ w.maxId
+  wf : w.WF
+
+theorem World.good_empty : World.empty.Good := ⟨fun c hc => (by cases hc), fun d hd => (by cases hd)⟩
+
+/-- the hypothesis `World.WF` of the deletion theorems is not an extra assumption about histories: it
+holds after any sequence of deliveries (`addClaim`, `addDelete` are what the driver executes) -/
+theorem C07_deliveries_wf (w w' : World) (hg : w.Good) :
+    (∀ c, w.addClaim c = some w' → w'.Good) ∧ (∀ d, w.addDelete d = some w' → w'.Good) := by
+  constructor
+  · intro c h
+    unfold World.addClaim at h
+    split at h
+    · cases h
+    · rename_i hlt
+      cases h
+      refine ⟨?_, ?_⟩
+      · intro x hx
+        simp only [List.mem_append, List.mem_singleton] at hx
+        cases hx with
+        | inl hx => have := hg.claimIds x hx; simp only; omega
+        | inr hx => subst hx; exact Nat.le_refl _
+      · intro d hd
+        have := hg.wf d hd
+        simp only; omega
+  · intro d h
+    unfold World.addDelete at h
+    split at h
+    · cases h
+    · rename_i hlt
+      have hold : ∀ x ∈ w.dels, refOrd x.target < x.deleter + 1 ∧ x.deleter ≤ d.deleter := by
+        intro x hx
+        have := hg.wf x hx
+        omega
+      split at h
+      · rename_i id htgt
+        split at h
+        · rename_i hk
+          cases h
+          refine ⟨?_, ?_⟩
+          · intro x hx
+            have := hg.claimIds x hx
+            simp only; omega
+          · intro x hx
+            simp only [List.mem_append, List.mem_singleton] at hx
+            cases hx with
+            | inl hx => exact hold x hx
+            | inr hx =>
+              subst hx
+              refine ⟨?_, Nat.le_refl _⟩
+              rw [htgt]
+              simp only [refOrd]
+              -- the target is known: its id is at most maxId
+              have hid : id ≤ w.maxId := by
+                unfold World.knownId at hk
+                rw [Bool.or_eq_true, List.any_eq_true, List.any_eq_true] at hk
+                cases hk with
+                | inl hk =>
+                  obtain ⟨c, hc, he⟩ := hk
+                  have := hg.claimIds c hc
+                  have : c.id = id := by simpa using he
+                  omega
+                | inr hk =>
+                  obtain ⟨x, hx', he⟩ := hk
+                  have := (hg.wf x hx').2
+                  have : x.deleter = id := by simpa using he
+                  omega
+              omega
+        · cases h
+      · rename_i p htgt
+        cases h
+        refine ⟨?_, ?_⟩
+        · intro x hx
+          simp only [List.mem_append, List.mem_singleton] at hx
+          cases hx with
+          | inl hx => have := hg.claimIds x hx; simp only; omega
+          | inr hx => subst hx; exact Nat.le_refl _
+        · intro x hx
+          simp only [List.mem_append, List.mem_singleton] at hx
+          cases hx with
+          | inl hx => exact hold x hx
+          | inr hx =>
+            subst hx
+            refine ⟨?_, Nat.le_refl _⟩
+            rw [htgt]
+            simp [refOrd]
+
+example : (World.empty.addClaim exA).bind (fun w => w.addDelete ⟨.cl 1, 2, 0, 10, 0⟩) ≠ none := by decide
+
+theorem World.delWF (w : World) (hw : w.WF) (m : Mode) : DelWF (w.deletes m) refOrd w.fuel := by
+  constructor
+  · intro d hd
+    exact (hw d ((w.mem_deletes m d).mp hd)).1
+  · intro d hd
+    have := (hw d ((w.mem_deletes m d).mp hd)).2
+    simp only [refOrd, World.fuel]; omega
+
+theorem isDeleted_bool_iff (ds : List Del) (P : Ref → Bool) :
+    Spec.IsDeleted ds P ↔
+      ∀ x, P x = (ds.filter (fun d => decide (d.target = x))).any (fun d => !P (.cl d.deleter)) := by
+  unfold Spec.IsDeleted
+  constructor
+  · intro h x
+    rw [Bool.eq_iff_iff, h x, List.any_eq_true]
+    constructor
+    · rintro ⟨d, hd, ht, hp⟩
+      exact ⟨d, List.mem_filter.mpr ⟨hd, by simpa using ht⟩, by simp [hp]⟩
+    · rintro ⟨d, hd, hp⟩
+      rw [List.mem_filter] at hd
+      exact ⟨d, hd.1, by simpa using hd.2, by simpa using hp⟩
+  · intro h x
+    rw [h x, List.any_eq_true]
+    constructor
+    · rintro ⟨d, hd, hp⟩
+      rw [List.mem_filter] at hd
+      exact ⟨d, hd.1, by simpa using hd.2, by simpa using hp⟩
+    · rintro ⟨d, hd, ht, hp⟩
+      exact ⟨d, List.mem_filter.mpr ⟨hd, by simpa using ht⟩, by simp [hp]⟩
+
+/-- **both recursions are the spec, at any delete/undelete depth**: on each of the three paths
+(Index.isDeleted over the deletes cache, Corpus.IsDeleted over the live corpus's map and over the map
+read back from the `deleted|` rows) the answer satisfies "deleted iff targeted by a delete claim that
+is not itself deleted", and it is the only predicate that does – so all three paths agree. -/
+theorem C07_isDeleted_spec (w : World) (hw : w.WF) (m : Mode) :
+    Spec.IsDeleted w.dels (w.isDeleted m) ∧
+    ∀ P, Spec.IsDeleted w.dels P → ∀ x, P x = w.isDeleted m x := by
+  have hcongr : ∀ x, w.isDeleted m x = isDeletedIn w.fuel w.dels x := fun x =>
+    isDeletedIn_congr (w.mem_deletes m) w.fuel x
+  have wf0 : DelWF w.dels refOrd w.fuel := by
+    have := w.delWF hw .idx
+    exact ⟨fun d hd => this.lt d ((w.mem_deletes .idx d).mpr hd),
+      fun d hd => this.bounded d ((w.mem_deletes .idx d).mpr hd)⟩
+  constructor
+  · rw [isDeleted_bool_iff]
+    intro x
+    rw [hcongr x, isDeletedIn_fixpoint w.dels refOrd w.fuel wf0 w.fuel (Nat.le_refl _) x]
+    apply any_congr_mem
+    intro d _
+    rw [hcongr]
+  · intro P hP x
+    rw [hcongr x]
+    exact isDeletedIn_unique w.dels refOrd w.fuel wf0 w.fuel (Nat.le_refl _) P ((isDeleted_bool_iff _ _).mp hP) x
+
+/-- the three paths give the same answer -/
+theorem C07_isDeleted_paths_agree (w : World) (m m' : Mode) (x : Ref) : w.isDeleted m x = w.isDeleted m' x := by
+  unfold World.isDeleted
+  exact isDeletedIn_congr (fun d => (w.mem_deletes m d).trans (w.mem_deletes m' d).symm) _ _
+
+/-- a chain of depth 4: claim 1, deleted by 2, deleted by 3, deleted by 4, deleted by 5 -/
+def exChain : World :=
+  { pns := [0], claims := [exA], maxId := 5,
+    dels := [⟨.cl 1, 2, 0, 10, 0⟩, ⟨.cl 2, 3, 0, 11, 0⟩, ⟨.cl 3, 4, 1, 12, 0⟩, ⟨.cl 4, 5, 0, 9, 0⟩] }
+
+example : exChain.WF := by
+  intro d hd
+  simp only [exChain, List.mem_cons, List.not_mem_nil, or_false] at hd
+  rcases hd with rfl | rfl | rfl | rfl <;> simp [refOrd, exChain]
+example : [1, 2, 3, 4, 5].map (fun i => exChain.isDeleted .load (.cl i)) = [false, true, false, true, false] := by
+  decide
+
+/-! ## the query paths -/
+
+/-- **the index path is the spec** (location.go as repaired by f282908: Index.AppendClaims without
+corpus, sort by date, claimsIntfAttrValue): for every history, permanode, attribute, time and signer
+filter the answer is the first of the spec values, deletions included – equal dates or not. -/
+theorem C07_index_path_spec (w : World) (p : Nat) (attr : Bytes) (at_ : Option Nat) (now : Nat) (f : Option Nat) :
+    ∃ vs, Spec.AttrValues (w.claimsOf p) (fun id => w.idxIsDeleted (.cl id)) attr (at_.getD now) f vs ∧
+      w.idxAttrValue p attr at_ now f = headVal vs := by
+  refine ⟨_, ⟨sortByDate (w.rowsOf p), ⟨(sortByDate_perm _).trans (w.rowsOf_perm p), sortByDate_sorted _⟩, rfl⟩, ?_⟩
+  rw [w.idxAttrValue_eq]
+  rfl
+
+/-- **the corpus paths are the spec with deletions ignored**: live or loaded at start, cache or fold,
+`AppendPermanodeAttrValues` / `PermanodeAttrValue` / `PermanodeHasAttrValue` return the spec values of
+the permanode's claims as if nothing were deleted. -/
+theorem C07_corpus_paths_spec_without_deletion (w : World) (m : Mode) (hm : m ≠ .idx) (p : Nat) (attr val : Bytes)
+    (at_ : Option Nat) (now : Nat) (f : Option Nat) :
+    ∃ l, Spec.IsLin l (w.claimsOf p) ∧
+      w.corpusAttrValues m p attr at_ now f = foldVals (l.filter (Spec.counts noDel attr (at_.getD now) f)) ∧
+      w.corpusAttrValue m p attr at_ now f
+        = headVal (foldVals (l.filter (Spec.counts noDel attr (at_.getD now) f))) ∧
+      w.corpusHasAttrValue m p attr val at_ now
+        = decide (val ∈ foldVals (l.filter (Spec.counts noDel attr (at_.getD now) none))) := by
+  unfold World.corpusAttrValues World.corpusAttrValue World.corpusHasAttrValue
+  cases h : w.pm m p with
+  | none =>
+    have he := w.pm_none m p hm h
+    refine ⟨[], ⟨by rw [he], by simp [Sorted]⟩, ?_, ?_, ?_⟩ <;> simp [foldVals, headVal]
+  | some pm =>
+    obtain ⟨hi, hp⟩ := w.pm_inv m p pm h
+    refine ⟨pm.claims, ⟨hp, hi.sorted⟩, ?_, ?_, ?_⟩
+    · simp only; rw [counts_noDel]; exact pmAttrValues_eq pm hi attr at_ now f
+    · simp only; rw [counts_noDel]; exact pmAttrValue_eq pm hi attr at_ now f
+    · simp only; rw [counts_noDel]; exact pmHasAttrValue_eq pm hi attr val at_ now
+
+/-- the two corpus paths agree on every attribute query when dates are pairwise distinct (with equal
+dates each is one of the allowed results, by the theorem above) -/
+theorem C07_corpus_paths_agree (w : World) (p : Nat) (hd : DistinctDates (w.claimsOf p)) (attr val : Bytes)
+    (at_ : Option Nat) (now : Nat) (f : Option Nat) :
+    w.corpusAttrValues .inc p attr at_ now f = w.corpusAttrValues .load p attr at_ now f ∧
+    w.corpusAttrValue .inc p attr at_ now f = w.corpusAttrValue .load p attr at_ now f ∧
+    w.corpusHasAttrValue .inc p attr val at_ now = w.corpusHasAttrValue .load p attr val at_ now := by
+  obtain ⟨l₁, ⟨hp₁, hs₁⟩, a₁, b₁, c₁⟩ :=
+    C07_corpus_paths_spec_without_deletion w .inc (by decide) p attr val at_ now f
+  obtain ⟨l₂, ⟨hp₂, hs₂⟩, a₂, b₂, c₂⟩ :=
+    C07_corpus_paths_spec_without_deletion w .load (by decide) p attr val at_ now f
+  have : l₁ = l₂ := sorted_perm_unique l₁ l₂ (hp₁.trans hp₂.symm) hs₁ hs₂ (hd.perm hp₁.symm)
+  subst this
+  exact ⟨a₁.trans a₂.symm, b₁.trans b₂.symm, c₁.trans c₂.symm⟩
+
+/-- **all query paths agree with the spec – as far as the code goes**: when no claim row of the
+permanode is deleted (and dates are pairwise distinct, so that "the" value exists), the index path,
+the live corpus and the corpus loaded at start all return the spec value, for every attribute, time
+(before / between / after / zero) and signer filter.  Without the guard this is false:
+`C07_all_paths_agree_counterexample`. -/
+theorem C07_all_paths_agree_partial (w : World) (p : Nat) (hd : DistinctDates (w.claimsOf p))
+    (hnd : ∀ c ∈ w.claimsOf p, w.idxIsDeleted (.cl c.id) = false)
+    (attr val : Bytes) (at_ : Option Nat) (now : Nat) (f : Option Nat) :
+    let del : Nat → Bool := fun id => w.idxIsDeleted (.cl id)
+    let spec := Spec.attrValues (w.claimsOf p) del attr (at_.getD now) f
+    w.idxAttrValue p attr at_ now f = headVal spec ∧
+    (∀ m, m ≠ .idx → w.corpusAttrValue m p attr at_ now f = headVal spec ∧
+      w.corpusAttrValues m p attr at_ now f = spec ∧
+      w.corpusHasAttrValue m p attr val at_ now
+        = decide (val ∈ Spec.attrValues (w.claimsOf p) del attr (at_.getD now) none)) := by
+  intro del spec
+  have hfilt : ∀ (l : List Claim) (g : Option Nat), l.Perm (w.claimsOf p) →
+      l.filter (Spec.counts noDel attr (at_.getD now) g) = l.filter (Spec.counts del attr (at_.getD now) g) := by
+    intro l g hp
+    apply List.filter_congr
+    intro c hc
+    have := hnd c (hp.mem_iff.mp hc)
+    simp [Spec.counts, noDel, del, this]
+  have huniq : ∀ l, Spec.IsLin l (w.claimsOf p) → l = sortByDate (w.claimsOf p) := by
+    rintro l ⟨hp, hs⟩
+    exact sorted_perm_unique l _ (hp.trans (sortByDate_perm _).symm) hs (sortByDate_sorted _) (hd.perm hp.symm)
+  constructor
+  · obtain ⟨vs, ⟨l, hl, rfl⟩, hv⟩ := C07_index_path_spec w p attr at_ now f
+    rw [hv, huniq l hl]
+    rfl
+  · intro m hm
+    obtain ⟨l, hl, a, b, c⟩ := C07_corpus_paths_spec_without_deletion w m hm p attr val at_ now f
+    rw [a, b, c, hfilt l f hl.1, hfilt l none hl.1, huniq l hl]
+    exact ⟨rfl, rfl, rfl⟩
+
+/-- set t=n at 1000, set t=o at 2000 (claim 2), claim 2 deleted by claim 3 -/
+def exDeleted : World :=
+  { pns := [0], maxId := 3, dels := [⟨.cl 2, 3, 0, 3000, 9⟩],
+    claims := [⟨1, 7, 0, 0, .set, [116], [110], 1000⟩, ⟨2, 3, 0, 0, .set, [116], [111], 2000⟩] }
+
+/-- **the corpus attribute queries ignore the deletion of attribute claims** (finding F-C07-1): after
+the newest set-attribute claim is deleted, the index path answers with the older value (the spec),
+both corpus paths still answer with the deleted claim's value. -/
+theorem C07_all_paths_agree_counterexample :
+    exDeleted.WF ∧ DistinctDates (exDeleted.claimsOf 0) ∧
+    exDeleted.idxAttrValue 0 [116] none 5000 none = [110] ∧
+    Spec.attrValues (exDeleted.claimsOf 0) (fun id => exDeleted.idxIsDeleted (.cl id)) [116] 5000 none = [[110]] ∧
+    exDeleted.corpusAttrValue .inc 0 [116] none 5000 none = [111] ∧
+    exDeleted.corpusAttrValue .load 0 [116] none 5000 none = [111] ∧
+    exDeleted.corpusAttrValues .inc 0 [116] (some 2500) 5000 none = [[111]] ∧
+    exDeleted.corpusHasAttrValue .load 0 [116] [111] none 5000 = true := by
+  refine ⟨?_, ?_, by decide, by decide, by decide, by decide, by decide, by decide⟩
+  · intro d hd
+    simp only [exDeleted, List.mem_cons, List.not_mem_nil, or_false] at hd
+    subst hd; simp [refOrd, exDeleted]
+  · simp [DistinctDates, exDeleted, World.claimsOf]
+
+/-- a history that satisfies the guards of `C07_all_paths_agree_partial`: claims delivered out of date
+order by two signers, one claim deleted and undeleted again -/
+def exUndeleted : World :=
+  { pns := [0], maxId := 5, claims := [exA, exB, exC],
+    dels := [⟨.cl 1, 4, 0, 10, 0⟩, ⟨.cl 4, 5, 1, 11, 0⟩] }
+
+example : DistinctDates (exUndeleted.claimsOf 0) := by simp [DistinctDates, exUndeleted, World.claimsOf, exA, exB, exC]
+example : ∀ c ∈ exUndeleted.claimsOf 0, exUndeleted.idxIsDeleted (.cl c.id) = false := by decide
+example : exUndeleted.idxAttrValue 0 [116] (some 2500) 0 none = [111] := by decide
+
+/-! ## Describe -/
+
+/-- **Describe is the spec on all three index modes, deletions respected**: `search.Handler.Describe`
+(describe.go:820 populatePermanodeFields over index.AppendClaims for the handler's owner, with or
+without corpus) returns the spec values of the owner's non-deleted claims, presented as a set (`norm`:
+empty values dropped, first occurrence of a value kept).  Its zero time means "all claims"
+(DescribeRequest.At), i.e. any `t` no claim is dated after. -/
+theorem C07_describe_path_spec (w : World) (m : Mode) (p : Nat) (attr : Bytes) (at_ : Option Nat) (s t : Nat)
+    (ht : at_ = some t ∨ (at_ = none ∧ ∀ c ∈ w.claimsOf p, c.date ≤ t)) :
+    ∃ vs, Spec.AttrValues (w.claimsOf p) (fun id => w.idxIsDeleted (.cl id)) attr t (some s) vs ∧
+      w.describe m p attr at_ s = norm vs := by
+  obtain ⟨l, hp, hs, he⟩ := w.describe_eq m p attr at_ s
+  refine ⟨_, ⟨l, ⟨hp, hs⟩, rfl⟩, ?_⟩
+  rw [he]
+  congr 2
+  apply List.filter_congr
+  intro c hc
+  cases ht with
+  | inl h => subst h; simp [Spec.counts, notAfter]
+  | inr h =>
+    obtain ⟨h1, h2⟩ := h
+    subst h1
+    have := h2 c (hp.mem_iff.mp hc)
+    simp [Spec.counts, notAfter, this]
+
+/-- with pairwise distinct dates the three modes give the same Describe answer -/
+theorem C07_describe_modes_agree (w : World) (p : Nat) (hd : DistinctDates (w.claimsOf p)) (m m' : Mode)
+    (attr : Bytes) (at_ : Option Nat) (s : Nat) : w.describe m p attr at_ s = w.describe m' p attr at_ s := by
+  obtain ⟨l, hp, hs, he⟩ := w.describe_eq m p attr at_ s
+  obtain ⟨l', hp', hs', he'⟩ := w.describe_eq m' p attr at_ s
+  have : l = l' := sorted_perm_unique l l' (hp.trans hp'.symm) hs hs' (hd.perm hp.symm)
+  rw [he, he', this]
+
+example : exDeleted.describe .inc 0 [116] none 0 = [[110]] := by decide
+example : exDeleted.describe .idx 0 [116] (some 2500) 0 = [[110]] := by decide
+
+/-! ## AppendClaims -/
+
+/-- **deleted claims are skipped, on every path**: Index.AppendClaims (rows, no corpus) and
+Corpus.AppendClaims (live or loaded) return exactly the permanode's claim rows that are not deleted and
+pass the signer and attribute filters; the corpus returns them in date order (the index promises no
+order: interface.go). -/
+theorem C07_appendClaims_spec (w : World) (p : Nat) (f : Option Nat) (a : Option Bytes) :
+    let want := (w.claimsOf p).filter (fun c =>
+      signerOk f c && !w.idxIsDeleted (.cl c.id) && attrFilterOk a c)
+    (w.idxAppendClaims p f a).Perm want ∧
+    ∀ m, m ≠ .idx → (w.corpusAppendClaims m p f a).Perm want ∧ Sorted (w.corpusAppendClaims m p f a) := by
+  intro want
+  constructor
+  · exact List.Perm.filter _ (w.rowsOf_perm p)
+  · intro m hm
+    unfold World.corpusAppendClaims
+    cases h : w.pm m p with
+    | none =>
+      have he := w.pm_none m p hm h
+      simp only [want, he]
+      exact ⟨by simp, by simp [Sorted]⟩
+    | some pm =>
+      obtain ⟨hi, hp⟩ := w.pm_inv m p pm h
+      simp only
+      constructor
+      · have : pm.claims.filter (fun c => !w.isDeleted m (.cl c.id) && signerOk f c && attrFilterOk a c)
+            = pm.claims.filter (fun c => signerOk f c && !w.idxIsDeleted (.cl c.id) && attrFilterOk a c) := by
+          apply List.filter_congr
+          intro c _
+          have : w.isDeleted m (.cl c.id) = w.idxIsDeleted (.cl c.id) := C07_isDeleted_paths_agree w m .idx _
+          rw [this]
+          cases signerOk f c <;> cases w.idxIsDeleted (.cl c.id) <;> simp
+        rw [this]
+        exact List.Perm.filter _ hp
+      · exact hi.sorted.filter _
+
+example : (exDeleted.idxAppendClaims 0 none none).map (·.id) = [1] := by decide
+example : (exDeleted.corpusAppendClaims .inc 0 none none).map (·.id) = [1] := by decide
+
+/-! ## facts regenerated from the source (Pk.Gen, group C07) -/
+
+/-- the four claim-type strings the folds switch on are the ones the model's `Kind` names, pairwise
+distinct (so a claim's `Type` determines its `Kind`) -/
+theorem C07_gen_claim_types :
+    Gen.c07ClaimTypes = ["set-attribute", "add-attribute", "del-attribute", "delete"] ∧ Gen.c07ClaimTypes.Nodup := by
+  decide
+
+/-- location.go, index without corpus: the claims of AppendClaims are sorted by date before they are
+folded (f282908) – the composition the harness's `attr idx` executes and `World.idxAttrValue` models -/
+theorem C07_gen_location_sorts_before_fold : Gen.c07LocationCalls = ["AppendClaims", "sort.Sort", "claimSlice"] := by
+  decide
+
+/-- scanFromStorage: every scanPrefix precedes restoreInvariants, which precedes initDeletes (`loadPM`) -/
+theorem C07_gen_scan_order :
+    Gen.c07ScanCalls.dropWhile (· == "scanPrefix") = ["restoreInvariants", "initDeletes"] := by decide
+
+/-- valuesAtSigner turns the zero time into time.Now() instead of returning the cache (2f922c1) -/
+theorem C07_gen_zero_time_is_now : Gen.c07ZeroTimeIsNow = true := by decide
+
+/-- mergeClaimRow appends the claim and calls fixupLastClaim exactly when the corpus is not building -/
+theorem C07_gen_fixup_when_not_building : Gen.c07FixupWhenNotBuilding = true := by decide
+
 end Pk.Attr
